@@ -21,6 +21,10 @@ PARSE_EXTRA = {ord('/'): ord('/'), ord("'"): ord("'")}
 def run(ctx, prog):
     from rules import unicode
     unicode.run(ctx, prog)
+    escape_rules(ctx, prog)
+
+
+def escape_rules(ctx, prog):
     rule = "R-ESC"
     tables = {}
     fns = prog.q("EscapeSequence::escapeTable")
@@ -91,7 +95,7 @@ def semantic(ctx, prog, rule, ser, par):
         dom0 = pieces.type_range(tk)
 
         def body(box):
-            m = pieces.Machine(prog, box, hooks=hooks or {})
+            m = pieces.Machine(prog, box, hooks=hooks or {}, max_unroll=64)
             m.fields = {}
             fr = pieces.Machine.Frame(fn)
             fr.env[fn.params[0]["d"]] = Aff.sym("c")
